@@ -317,6 +317,29 @@ def build_harness(ctx, release=False):
     return os.path.join(HARNESS, "target", "release" if release else "debug", "vharness")
 
 
+def build_bins(ctx):
+    """Builds the two command-line tools (`crustabri`, `crustabri_iccma23`) from the CURRENT working
+    tree of /repo (or of $VERIF_REPO: used to try mutations on a copy) without writing into it: the
+    target directory lives under work/.  Returns (path of crustabri, path of crustabri_iccma23) or None."""
+    repo = os.environ.get("VERIF_REPO") or REPO
+    tdir = "cli-target" if repo == REPO else "cli-target-" + hashlib.sha1(repo.encode()).hexdigest()[:8]
+    target = os.path.join(WORK, tdir)
+    with Lock("cargo-bins"):
+        os.makedirs(target, exist_ok=True)
+        cmd = ["cargo", "build", "--offline", "--locked", "--bins", "--manifest-path", os.path.join(repo, "Cargo.toml"),
+               "--target-dir", target]
+        rc, out = sh(cmd, timeout=1500, env={"RUSTFLAGS": "-Awarnings"})
+        if rc != 0:
+            ctx.log("build of the command-line tools failed:\n" + out[-3000:])
+            return None
+    a = os.path.join(target, "debug", "crustabri")
+    b = os.path.join(target, "debug", "crustabri_iccma23")
+    if not (os.path.exists(a) and os.path.exists(b)):
+        ctx.log("build of the command-line tools produced no binaries")
+        return None
+    return a, b
+
+
 def build_driver(ctx):
     with Lock("driver"):
         drv = os.path.join(DRIVER, "driver")
